@@ -138,6 +138,11 @@ def map_failures(res, gen, unitcfg):
             m = fn.module
             if kind in ('arith', 'panic', 'precondition'):
                 props.update(safety_props(unitcfg, m))
+                if kind == 'arith':
+                    # Verus assumes "no overflow" after reporting it: the function's own clauses are then proved
+                    # only under that assumption, i.e. not for builds where the arithmetic wraps
+                    for l in fn.labels:
+                        props.update(gen.clauses[l]['own'])
                 f['obligation'] = 'safety:%s::%s' % (m, fn.path)
             elif kind == 'decreases':
                 props.update(termination_props(unitcfg, m))
@@ -208,11 +213,12 @@ def write_replay(prop, f, res, idx):
 class UnitRun:
     pass
 
-def run_unit(prop, unit, pcfg, cache, usize=8, seed=None, want_canary=True):
+def run_unit(prop, unit, pcfg, cache, usize=8, seed=None, want_canary=True, force_external=None, depth=0):
     """extract + verify one unit for one property; returns a UnitRun (raises Undecided/ExtractError)"""
     from concurrent.futures import ThreadPoolExecutor
     u = UnitRun()
-    ex = Extractor(REPO, SPEC, unit, usize_bytes=usize)
+    force = dict(force_external or {})
+    ex = Extractor(REPO, SPEC, unit, usize_bytes=usize, force_external=force)
     gen = ex.build()
     unitcfg = ex.unit
     tag = 'u_%s%s' % (unit, '' if usize == 8 else '_usize%d' % usize)
@@ -223,7 +229,7 @@ def run_unit(prop, unit, pcfg, cache, usize=8, seed=None, want_canary=True):
     rlimit = pcfg.get('rlimit', 30)
     genc = cpath = None
     if want_canary:
-        genc = Extractor(REPO, SPEC, unit, usize_bytes=usize, canary=True).build()
+        genc = Extractor(REPO, SPEC, unit, usize_bytes=usize, canary=True, force_external=force).build()
         cpath = os.path.join(GEN, tag + '_canary.rs')
         open(cpath, 'w').write(genc.text)
     def verify(path, g_, threads):
@@ -247,6 +253,19 @@ def run_unit(prop, unit, pcfg, cache, usize=8, seed=None, want_canary=True):
         f2 = tp.submit(verify, cpath, genc, 6) if want_canary else None
         res, comp_fails = f1.result()
         cres = f2.result()[0] if f2 else None
+    if not res['have_results'] and depth < 4:
+        # Verus' front end rejected something (unsupported construct, type error in spliced text ...).  If every such
+        # diagnostic lies inside a function of the repository, leave exactly those functions unverified
+        # (external_body, flagged `lost`: undecided for the properties that relate to them) and verify the rest.
+        bad = {}
+        for d in res['diags']:
+            sp = [x for x in d['spans'] if x['is_primary']] or d['spans']
+            f = fn_at_line(gen, sp[0]['line_start']) if sp else None
+            if f is None or f.external: bad = None; break
+            bad[(f.module, f.path)] = 'Verus front end: ' + d['message'][:200]
+        if bad:
+            force.update(bad)
+            return run_unit(prop, unit, pcfg, cache, usize, seed, want_canary, force, depth + 1)
     if not res['have_results']:
         fe = [d for d in res['diags']]
         msg = fe[0]['rendered'] if fe else res['raw_err_tail']
